@@ -182,11 +182,11 @@ PrunePhase ==
        \* report (no sink: nothing is reported) the later observations decide
        \/ /\ ReportOK(e, P, canon, k)
           /\ nodes' = Remove(Removed(e, P, k))
-          /\ detached' = (detached \ Removed(e, P, k)) \cup DetachedBy(Removed(e, P, k), Removed(e, P, k) = P, fin.root)
+          /\ detached' = (detached \ Removed(e, P, k)) \cup DetachedBy(Removed(e, P, k), Removed(e, P, k) = P, PruneAnchor(fin))
           /\ UNCHANGED <<votes, bal, just, fin, pin, nilsink>>
        \/ /\ dev /\ P2 # P /\ ReportOK(e, P2, canon, k)
           /\ nodes' = Remove(Removed(e, P2, k))
-          /\ detached' = (detached \ Removed(e, P2, k)) \cup DetachedBy(Removed(e, P2, k), Removed(e, P2, k) = P2, fin.root)
+          /\ detached' = (detached \ Removed(e, P2, k)) \cup DetachedBy(Removed(e, P2, k), Removed(e, P2, k) = P2, PruneAnchor(fin))
           /\ UNCHANGED <<votes, bal, just, fin, pin, nilsink>>
     /\ ph' = "call" /\ cur' = 0
     /\ UNCHANGED <<hh, done, order>>
